@@ -558,6 +558,13 @@ def real_attr_state(db):
                         'reverseColumns': list(getattr(a, 'reverse_columns', None) or []), 'table': getattr(a, 'table', None)})
     return out
 
+def run_real_mapping_src(src, dialect, sqlite_real=False):
+    global diagram_src
+    saved = diagram_src
+    diagram_src = lambda s: src
+    try: return run_real_mapping(None, dialect, sqlite_real)
+    finally: diagram_src = saved
+
 def run_real_mapping(spec, dialect, sqlite_real=False):
     """build the diagram, extract declarations, run the real generate_mapping. Returns dict(decls, linked, outcome, db)"""
     if sqlite_real:
@@ -869,6 +876,11 @@ def witnesses(ctx):
         check_schema_property(ctx, dialect, real, explicit_names(decls), {'source': src}, 'generate_mapping')
         if len(ctx.violations) + len(ctx.known_hits) == before:
             ctx.note('length witness %s: all derived names now fit' % kind)
+    # Oracle: sequence / trigger names derived from a table name that fits
+    src = 'class CustomerOrderLineItemDiscounts(db.Entity):\n    x = Required(str)\n'
+    res = run_real_mapping_src(src, 'oracle')
+    ctx.case(['witness', 'oracle-sequence'], kind='witness')
+    if 'ok' in res.get('outcome', {}): ddl_oracle(ctx, None, src, 'oracle', res, res['decls'])
     # creation order: a table that merely depends on a cycle
     p = provider('postgres')
     schema = p.dbschema_cls(p)
@@ -912,17 +924,10 @@ def replay(ctx, data):
     src = inp.get('source') if isinstance(inp, dict) else None
     if src:
         dialect = inp.get('dialect', 'sqlite')
-        spec = {'entities': [], 'focus': 'replay'}
-        global diagram_src
-        saved = diagram_src
-        diagram_src = lambda s: src
-        try:
-            res = run_real_mapping(spec, dialect, sqlite_real=(dialect == 'sqlite'))
-            ctx.case(['replay', dialect, src], kind='replay')
-            if 'ok' in res.get('outcome', {}):
-                if dialect == 'sqlite': sqlite_oracle(ctx, spec, src, res, None)
-                else: ddl_oracle(ctx, spec, src, dialect, res, res['decls'])
-        finally:
-            diagram_src = saved
+        res = run_real_mapping_src(src, dialect, sqlite_real=(dialect == 'sqlite'))
+        ctx.case(['replay', dialect, src], kind='replay')
+        if 'ok' in res.get('outcome', {}):
+            if dialect == 'sqlite': sqlite_oracle(ctx, None, src, res, None)
+            else: ddl_oracle(ctx, None, src, dialect, res, res['decls'])
     else:
         run(ctx)
